@@ -283,7 +283,8 @@ def standardise(item):
             res = _std_once(kind, base, entry)
             if res is not None:
                 return res
-    nt = len(set(base)) < len(base) if kind != "range" else len(range(*base)) > 1
+    _arg, vals = _materialise(kind, base)
+    nt = len(set(vals)) < len(vals) if kind != "range" else len(vals) > 1  # measured: the input has a tie
     return ok(nt)
 
 
@@ -633,9 +634,10 @@ def run(ctx):
     ctx.add_sample("C09.gen.first", 874)
 
     # ---- rank / unrank
-    rmax = T.offset(nmax + 1)
+    umax = nmax if quick else nmax + 1  # thorough: one more level for the global rank
+    rmax = T.offset(umax + 1)
     ctx.run("C09.unrank", range(0, rmax), chunk=1500,
-            rule=f"all ranks r < sum_(n<={nmax}) n! = {rmax}; oracle = r-th entry of the own enumeration, cross-checked by counting")
+            rule=f"all ranks r < sum_(n<={umax}) n! = {rmax}; oracle = r-th entry of the own enumeration, cross-checked by counting")
     lmax = 7 if quick else 8
     ctx.run("C09.unrank_length", ((r, n) for n in range(0, lmax + 1) for r in range(T.factorial(n))), chunk=1500,
             rule=f"all (r, n) with n <= {lmax}, 0 <= r < n! (n = 0: r = 0 only)")
